@@ -11,7 +11,7 @@ CHECKS = {
  "C03": dict(
     text="Bounded symbolic checking: the real compute_dynamics / process-tensor / control code runs on symbolic tensors; z3 proves "
          "equality with the explicit joint-evolution index sum for ALL tensor values with d=2 (d=3 thorough), <=3 environments, bond<=2, "
-         "N<=3(4) steps, rank-3/rank-4 MPOs, in/out transforms and control schedules, initial-state arrays in C, Fortran and strided memory layout; counterexamples are replayed on the real stack.",
+         "N<=3(4) steps, rank-3/rank-4 MPOs, in/out transforms and control schedules, initial-state arrays in C, Fortran and strided memory layout, caller buffers re-used after set_mpo_tensor/set_cap_tensor (H9); counterexamples are replayed on the real stack.",
     note="Order independence is asserted where it is a mathematical truth (rank-3 delta tensors in a common basis). " + TB,
     ref="4/C03", technique="symbolic execution of the real numpy/tensornetwork code on z3 terms + SMT (QF_NRA) identity queries"),
 }
